@@ -553,6 +553,18 @@ func emitRedact(id string, c rcaseT, st *hx.Stats) string {
 	if st != nil {
 		st.Case(in[len(id):], sens && sensNested)
 		st.Count("redact_" + c.H)
+		long := false
+		for _, as := range append([][]attrT{c.Call}, func() (ws [][]attrT) {
+			for _, op := range c.Chain {
+				ws = append(ws, op.W)
+			}
+			return
+		}()...) {
+			leaves(as, func(a attrT, _ int) { long = long || len(a.S) > 4096 }, 0)
+		}
+		if long {
+			st.Count("redact_long_value")
+		}
 		st.Count("redact_entry_" + strconv.Itoa(c.Entry))
 		if sens {
 			st.Count("redact_has_sensitive")
@@ -613,6 +625,10 @@ func (g *rgen) leaf() attrT {
 		} else if r.Chance(1, 8) {
 			// a value that merely looks sensitive (redaction is by key): must come out unchanged under a plain key
 			a.S += hx.Pick(r, []string{":password", "-token", ":***REDACTED***", ".secret", ":Bearer"})
+		}
+		if r.Chance(1, 60) {
+			// an unusually long value (a pasted certificate, a JWT bundle): several kilobytes, the distinctive core first
+			a.S += strings.Repeat(hx.Pick(r, []string{"z", "k9", "Qw-"}), 1+(4200+r.Intn(5000))/3)
 		}
 	}
 	a.Via = r.Intn(2)
